@@ -1,9 +1,10 @@
-import Oracle.Proto
+/-
+  Oracle.C05 — C05 shares the context-stack model with C07: `oracle c05` runs the same driver
+  (Model.Ctx / Model.CallCtx on the harness's op lines and call trees).
+-/
+import Oracle.C07
 namespace Oracle.C05
 
-/-- placeholder: the oracle driver for C05 is not built yet -/
-def main (_args : List String) : IO UInt32 := do
-  IO.eprintln "oracle mode c05: not built"
-  return 2
+def main (args : List String) : IO UInt32 := Oracle.C07.main args
 
 end Oracle.C05
